@@ -2,8 +2,9 @@
 from __future__ import annotations
 
 import json
+import random
 
-from spverif.core.util import attempt, exc_sig, rand_uint, rand_bytes
+from spverif.core.util import attempt, exc_sig, rand_uint, rand_bytes, documented_errors
 from spverif.ref import cfdp as R
 from . import _cfdp as C
 from . import _views as V
@@ -99,6 +100,15 @@ def k_fd(ctx, cfg, p, model_fed=False, via="ctor", seed=0):
     ctx.check("fd.roundtrip", u.packet_len == len(want), "packet_len", feat, case, observed=u.packet_len, expected=len(want))
     ok, rp = attempt(u.pack)
     ctx.check("fd.roundtrip", ok and bytes(rp) == want, "repack", feat, case, observed=bytes(rp)[:80] if ok else repr(rp))
+    # the same PDU in a buffer that goes on behind it: file data not one octet more
+    for sfx in (want[:9], b"\x00\x00\x00", rand_bytes(random.Random(len(want)), 5)):
+        ok, us = attempt(X.FileDataPdu.unpack, src + sfx)
+        if ok:
+            gs = C.get_params("file_data", us)
+            ctx.check("fd.unpack", gs == exp and us.packet_len == len(want), "param_when_octets_follow_the_pdu", f"{feat}/{C.diff_keys(gs, exp)}" + (f"/extra={len(gs['data']) // 2 - len(data)}" if gs["data"] != exp["data"] else ""), case,
+                      observed_data_len=len(gs["data"]) // 2, expected_data_len=len(data))
+        else:
+            ctx.check("fd.unpack", isinstance(us, documented_errors()) and not isinstance(us, __import__("spacepackets.cfdp.exceptions", fromlist=["InvalidCrc"]).InvalidCrc), "intact_pdu_refused_when_octets_follow", f"{feat}/{exc_sig(us)}", case, error=repr(us))
     V.pdu_views(ctx, "fd.delegated_views", pdu, want, hexp, case, "FileDataPdu/constructed")
     V.pdu_views(ctx, "fd.delegated_views", u, want, hexp, case, "FileDataPdu/unpacked")
     ISO.remember(u, want, "file_data", view=lambda u=u: (C.get_params("file_data", u), C.hdr_fields(u.pdu_header), u.packet_len))
